@@ -87,7 +87,7 @@ def gen_route(rng, shared=False):
         ops.append("peer Z")
         ops.append(f"recvpub Z {rng.choice(TOPICS)} {rng.choice([0, 1])}")
         ops.append(f"pub {rng.choice(TOPICS)} 0")
-    return ops
+    return _dupflags(rng, ops)
 
 def mqtt_match(flt, topic):
     """MQTT 4.7, written from the standard"""
@@ -111,7 +111,12 @@ def split_topic(t):
         return (p[1], p[2]) if len(p) == 3 else ("-", "")
     return ("-", t)
 
+def _dupflags(rng, ops):
+    """some publishes arrive with DUP=1 (a client retransmission the broker sees for the first time): routed like any other"""
+    return [("pubd " + o[4:]) if o.startswith("pub ") and rng.random() < 0.2 else o for o in ops]
+
 def pred_route(ops, out, check_groups=False):
+    ops = [("pub " + o[5:]) if o.startswith("pubd ") else o for o in ops]
     """retained ⇒ every peer exactly once; non-retained, no shared subscription anywhere ⇒ exactly the peers holding ≥1 matching
     subscription, once each, never the local node, local delivery untouched (drop=0, options unchanged). With shared
     subscriptions: targets are distinct peers each holding a matching entry, every peer with a matching NON-shared entry is a
